@@ -27,6 +27,10 @@ type FileSpec struct {
 	Kind     string       `json:"kind"` // sysl | swagger | openapi3 | pbjson | textpb | proto
 	Imports  []ImportSpec `json:"imports,omitempty"`
 	LongLine int          `json:"long_line,omitempty"` // a comment line of that many bytes before import number (LongLine-1)
+	// Layout varies how the same import statements are written (bits 0-1: what follows the keyword - blank, tab, two
+	// blanks, blank and tab; 4: the first line of the file is indented; 8: lines of white space only and indented
+	// comments between the statements; 16: later lines that start with the word import without being statements)
+	Layout int `json:"layout,omitempty"`
 	Text     string       `json:"text"`                // delivered content (after content faults)
 }
 
@@ -275,6 +279,16 @@ func Gen(seed uint64, faulty bool) *Workload {
 		for _, f := range w.Files {
 			if f.Kind == "sysl" && len(f.Imports) > 0 && r.Chance(0.5) {
 				f.LongLine = 1 + r.Intn(len(f.Imports))
+				f.Text = render(w, f)
+			}
+		}
+	}
+	// the same statements written differently: the pre-scan that decides what to fetch and the
+	// lexer have to agree on what an import statement is
+	if r.Chance(0.3) {
+		for _, f := range w.Files {
+			if f.Kind == "sysl" && r.Chance(0.6) {
+				f.Layout = r.Intn(32)
 				f.Text = render(w, f)
 			}
 		}
@@ -533,12 +547,19 @@ paths:
 		return fmt.Sprintf("apps: {\n key: \"Foreign%d\"\n value: {\n  name: {\n   part: \"Foreign%d\"\n  }\n }\n}\n", f.ID, f.ID)
 	}
 	var b strings.Builder
+	sep := []string{" ", "\t", "  ", " \t"}[f.Layout&3]
 	for k, im := range f.Imports {
 		if f.LongLine == k+1 {
 			// a very long line ahead of an import statement (a generated banner, a minified comment)
 			b.WriteString("# " + strings.Repeat("long comment ", 5600) + "\n")
 		}
-		b.WriteString("import " + im.Spell)
+		if f.Layout&4 != 0 && b.Len() == 0 {
+			b.WriteString("  ") // the grammar accepts white space at the very start of the file
+		}
+		if f.Layout&8 != 0 && k > 0 {
+			b.WriteString([]string{"   \n", "\t\n", "  # a note\n", "\n#\n \n"}[(f.ID+k)%4])
+		}
+		b.WriteString("import" + sep + im.Spell)
 		if im.As != "" {
 			b.WriteString(" as " + im.As)
 		}
@@ -546,6 +567,12 @@ paths:
 	}
 	if len(f.Imports) > 0 {
 		b.WriteString("\n")
+	}
+	if f.Layout&16 != 0 {
+		// after the first application import is an ordinary word
+		fmt.Fprintf(&b, "F%d:\n    !type T%d:\n        x <: int\n\nShared:\n    E%d:\n        import the records\n        ...\n\nimport Gateway%d:\n    E:\n        ...\n",
+			f.ID, f.ID, f.ID, f.ID)
+		return b.String()
 	}
 	fmt.Fprintf(&b, "F%d:\n    !type T%d:\n        x <: int\n\nShared:\n    E%d:\n        ...\n", f.ID, f.ID, f.ID)
 	return b.String()
